@@ -975,7 +975,12 @@ func hookFor(c *CheckSpec, failed *bool) func(args.ReadOnly) (*args.Args, error)
 		return args.New().Add(key, val) != nil
 	}
 	return func(ro args.ReadOnly) (*args.Args, error) {
+		// a hook that takes its time (a lookup, I/O): whatever the library started before calling it
+		// runs until it is done or waits for something (no simulated time passes)
+		synctest.Wait()
 		switch c.Hook {
+		case "nil":
+			return nil, nil
 		case "fail":
 			*failed = true
 			return nil, errors.New("dsim: hook failed")
@@ -1166,7 +1171,11 @@ func (w *worldExec) decideProv(label string, c *CheckSpec, useHook bool, prov st
 			outOfContract = true
 		}
 	}
-	if outOfContract {
+	// a hook that returns neither arguments nor an error ("nothing to change") is outside the hook
+	// contract as well: a panic or a refusal is tolerated, an allowed invocation is held against the
+	// model like any other
+	tolerantHook := useHook && c.Hook == "nil"
+	if outOfContract || tolerantHook {
 		// a loader that breaks its contract may make the call panic (that is the caller's bug, not
 		// a finding); what it must never do is get the invocation allowed
 		panicked := false
@@ -1189,6 +1198,9 @@ func (w *worldExec) decideProv(label string, c *CheckSpec, useHook bool, prov st
 		}
 		if !ld.broken {
 			outOfContract = false // (the faulty call was never made)
+		}
+		if tolerantHook && err != nil {
+			return decision{} // refused: no verdict on completeness
 		}
 	} else if guard(o, entry, func() {
 		if useHook {
